@@ -8,6 +8,9 @@ package gen
 // New returns a pointer to a fresh zero value of the generated Go type for a corpus type name.
 var New = map[string]func() any{}
 
+// NewPU returns a pointer to a fresh `<T>_PartialUpdate` for the corpus records.
+var NewPU = map[string]func() any{}
+
 // Defaults returns `New<T>WithDefaultValues()` for the records that have one.
 var Defaults = map[string]func() any{}
 
